@@ -493,6 +493,11 @@ class HierDictDocument(DictDocument):
                 cls, = ti.values()
                 ti = getattr(cls, '_type_info', {})
 
+                if cls.Attributes.max_occurs > 1:
+                    # the items of an array are converted one by one below,
+                    # also when they are arrays themselves.
+                    break
+
             # what was wrapped can be null as well.
             if inst is None:
                 return None
